@@ -484,3 +484,73 @@ fn set_lag(lag: u32) {
         }
     });
 }
+
+/// Windows whose length is not a multiple of the access width: the notify window is used with
+/// 16-bit writes and the device-configuration window with accesses of up to 32 bits, so a length
+/// that is rounded *up* to whole elements lets accesses run past the advertised window.
+/// Every notification and every configuration access of width 1, 2, 4 at every aligned offset up
+/// to 8 bytes past the window is issued; any MMIO access not wholly inside a window is a violation,
+/// and so is a configuration access reported successful although it does not lie inside the window.
+pub fn run_odd_windows(bars: &[(usize, BarKind, u64)], notify_len: u32, mult: u32, devcfg_len: u32) -> (u64, Vec<(String, String)>) {
+    let caps = vec![good_common(), VCap { length: notify_len, mult, ..good_notify() }, good_isr(), VCap { length: devcfg_len, ..good_device() }];
+    let b = build(bars, &caps, false, 3);
+    let (_class, mut out, t) = construct_case(&b, &caps);
+    let mut n = 1;
+    let Some(mut t) = t else {
+        // Refusing such a layout is permitted (only the reference's verdict on validity is judged
+        // by construct_case).
+        mmio::set_handler(None);
+        return (n, out);
+    };
+    let stray = |tr: &[RegAccess], ctx: &str, out: &mut Vec<(String, String)>| {
+        for a in tr {
+            if matches!(a.region, Region::PciOutside | Region::Stray) {
+                out.push(("access-outside-windows".into(), format!("{}: {}-byte {} at {:#x} is not wholly inside a capability window (notify window {} bytes, device configuration window {} bytes)", ctx, a.width, if a.write { "write" } else { "read" }, a.off, notify_len, devcfg_len)));
+            }
+        }
+    };
+    let nq = b.dev.borrow().queues.len() as u16;
+    for q in 0..nq {
+        b.trace.borrow_mut().clear();
+        let _ = crate::util::catch(|| t.notify(q));
+        let tr: Vec<RegAccess> = std::mem::take(&mut *b.trace.borrow_mut());
+        stray(&tr, &format!("notify({})", q), &mut out);
+        n += 1;
+    }
+    for off in 0..(devcfg_len as usize + 9) {
+        macro_rules! rd {
+            ($ty:ty) => {{
+                if off % std::mem::size_of::<$ty>() == 0 {
+                    b.trace.borrow_mut().clear();
+                    let r = crate::util::catch(|| t.read_config_space::<$ty>(off));
+                    let tr: Vec<RegAccess> = std::mem::take(&mut *b.trace.borrow_mut());
+                    let ctx = format!("read_config_space::<{}>({})", stringify!($ty), off);
+                    stray(&tr, &ctx, &mut out);
+                    if let Ok(Ok(_)) = r {
+                        if off + std::mem::size_of::<$ty>() > devcfg_len as usize {
+                            out.push(("config-access-beyond-window".into(), format!("{} succeeded with a device configuration window of {} bytes", ctx, devcfg_len)));
+                        }
+                    }
+                    b.trace.borrow_mut().clear();
+                    let r = crate::util::catch(|| t.write_config_space::<$ty>(off, 0x5a as $ty));
+                    let tr: Vec<RegAccess> = std::mem::take(&mut *b.trace.borrow_mut());
+                    let ctx = format!("write_config_space::<{}>({})", stringify!($ty), off);
+                    stray(&tr, &ctx, &mut out);
+                    if let Ok(Ok(_)) = r {
+                        if off + std::mem::size_of::<$ty>() > devcfg_len as usize {
+                            out.push(("config-access-beyond-window".into(), format!("{} succeeded with a device configuration window of {} bytes", ctx, devcfg_len)));
+                        }
+                    }
+                    n += 2;
+                }
+            }};
+        }
+        rd!(u8);
+        rd!(u16);
+        rd!(u32);
+    }
+    b.trace.borrow_mut().clear();
+    std::mem::forget(t);
+    mmio::set_handler(None);
+    (n, out)
+}
